@@ -34,6 +34,7 @@ var _ net.Listener = (*GRPCServerMuxer)(nil)
 // unblocked when a knock is received for the matching stream ID.
 type GRPCServerMuxer struct {
 	addr   net.Addr
+	ln     net.Listener
 	logger hclog.Logger
 
 	sessionErrCh chan error
@@ -48,6 +49,7 @@ type GRPCServerMuxer struct {
 func NewGRPCServerMuxer(logger hclog.Logger, ln net.Listener) *GRPCServerMuxer {
 	m := &GRPCServerMuxer{
 		addr:   ln.Addr(),
+		ln:     ln,
 		logger: logger,
 
 		sessionErrCh: make(chan error),
@@ -144,6 +146,11 @@ func (m *GRPCServerMuxer) Addr() net.Addr {
 }
 
 func (m *GRPCServerMuxer) Close() error {
+	// Close the listener we were created from, so that it is cleaned up
+	// (e.g. a Unix socket file removed) along with the session. Its error is
+	// not interesting: the session below is what carries the connections.
+	_ = m.ln.Close()
+
 	session, err := m.session()
 	if err != nil {
 		return err
